@@ -52,6 +52,12 @@ type Result struct {
 	StartLine   int
 	EndLine     int
 	NumTopStmts int
+	// second slice: the Quai->Qi conversion branch of (*StateProcessor).Process
+	MintBody      string
+	MintFreeVars  []string
+	MintShape     []string
+	MintStartLine int
+	MintEndLine   int
 }
 
 // reviewed table: free variable of the sliced text -> parameter type
@@ -421,10 +427,280 @@ type VerifC20Out struct {
 	}
 	g.WriteString("\treturn newInboundEtxs, nil\n}\n")
 
-	res := &Result{GoFile: g.String(), Body: body, FreeVars: frees,
+	res := &Result{Body: body, FreeVars: frees,
 		StartLine: fset.Position(lo).Line, EndLine: fset.Position(hi).Line, NumTopStmts: len(stmts)}
 	res.Shape = shape(fset, stmts)
+	mint, err := sliceMint(repo, res)
+	if err != nil {
+		return nil, err
+	}
+	// imports the mint function needs beyond those already written: emitted as a second import block is not
+	// allowed after declarations, so the file is assembled here: header+imports / decls
+	file1 := g.String()
+	idx := strings.Index(file1, "import (\n")
+	end := idx + strings.Index(file1[idx:], ")\n")
+	have := file1[idx:end]
+	var extra strings.Builder
+	for _, line := range mint.imports {
+		if !strings.Contains(have, line) {
+			extra.WriteString(line)
+		}
+	}
+	res.GoFile = file1[:end] + extra.String() + file1[end:] + "\n" + mint.code
 	return res, nil
+}
+
+// ---------------------------------------------------------------------------------------------
+// Second slice: the destination side of a Quai->Qi conversion, inline in (*StateProcessor).Process:
+// the body of the if-statement whose condition is
+//     etx.ETXSender().Location().Equal(*etx.To().Location())
+// and whose body calls misc.FindMinDenominations (the lock/mint loop).  The text is copied verbatim
+// into a loop that runs once, so that the `continue` statements of the text (next transaction)
+// leave it; `return nil, ..., err` statements keep their meaning because the generated function has
+// Process's result list.
+
+var mintParamTypes = map[string]string{
+	"p":                   "*StateProcessor",
+	"block":               "*types.WorkObject",
+	"nodeCtx":             "int",
+	"etx":                 "*types.Transaction",
+	"tx":                  "*types.Transaction",
+	"gp":                  "*types.GasPool",
+	"usedGas":             "*uint64",
+	"batch":               "ethdb.Batch",
+	"supplyAddedQi":       "*big.Int",
+	"utxosCreatedDeleted": "*UtxosCreatedDeleted",
+}
+var mintParamOrder = []string{"p", "block", "nodeCtx", "etx", "tx", "gp", "usedGas", "batch", "supplyAddedQi", "utxosCreatedDeleted"}
+
+// free variables that are accumulators of Process: declared as locals and handed back
+var mintLocals = []struct{ name, typ, field string }{
+	{"receipt", "*types.Receipt", ""},
+	{"receipts", "types.Receipts", "Receipts"},
+	{"allLogs", "[]*types.Log", "AllLogs"},
+	{"totalEtxGas", "uint64", "TotalEtxGas"},
+}
+
+type mintOut struct {
+	code    string
+	imports []string
+}
+
+func sliceMint(repo string, res *Result) (*mintOut, error) {
+	path := filepath.Join(repo, "core", "state_processor.go")
+	src, err := os.ReadFile(path)
+	if err != nil {
+		return nil, fmt.Errorf("cannot read %s: %w", path, err)
+	}
+	fset := token.NewFileSet()
+	file, err := parser.ParseFile(fset, path, src, parser.ParseComments)
+	if err != nil {
+		return nil, fmt.Errorf("cannot parse %s: %w", path, err)
+	}
+	imports := map[string]string{}
+	for _, im := range file.Imports {
+		p, _ := strconv.Unquote(im.Path.Value)
+		name := filepath.Base(p)
+		if im.Name != nil {
+			name = im.Name.Name
+		}
+		imports[name] = p
+	}
+	var fn *ast.FuncDecl
+	for _, d := range file.Decls {
+		f, ok := d.(*ast.FuncDecl)
+		if !ok || f.Name.Name != "Process" || f.Recv == nil || len(f.Recv.List) != 1 {
+			continue
+		}
+		if st, ok := f.Recv.List[0].Type.(*ast.StarExpr); ok {
+			if id, ok := st.X.(*ast.Ident); ok && id.Name == "StateProcessor" {
+				if fn != nil {
+					return nil, fmt.Errorf("anchor ambiguous: two (*StateProcessor).Process")
+				}
+				fn = f
+			}
+		}
+	}
+	if fn == nil {
+		return nil, fmt.Errorf("anchor not found: func (p *StateProcessor) Process in core/state_processor.go")
+	}
+	if len(fn.Recv.List[0].Names) != 1 || fn.Recv.List[0].Names[0].Name != "p" {
+		return nil, fmt.Errorf("anchor changed: receiver of Process is not named p")
+	}
+	pr := func(n ast.Node) string {
+		var b bytes.Buffer
+		cfg := printer.Config{Mode: printer.RawFormat}
+		cfg.Fprint(&b, token.NewFileSet(), n)
+		return strings.Join(strings.Fields(b.String()), " ")
+	}
+	const wantCond = "etx.ETXSender().Location().Equal(*etx.To().Location())"
+	var found []*ast.IfStmt
+	ast.Inspect(fn.Body, func(n ast.Node) bool {
+		is, ok := n.(*ast.IfStmt)
+		if !ok || pr(is.Cond) != wantCond {
+			return true
+		}
+		calls := false
+		ast.Inspect(is.Body, func(m ast.Node) bool {
+			if c, ok := m.(*ast.CallExpr); ok && isSel(c.Fun, "misc", "FindMinDenominations") {
+				calls = true
+			}
+			return true
+		})
+		if calls {
+			found = append(found, is)
+		}
+		return true
+	})
+	if len(found) == 0 {
+		return nil, fmt.Errorf("anchor not found: no `if %s { ... misc.FindMinDenominations ... }` in (*StateProcessor).Process", wantCond)
+	}
+	if len(found) > 1 {
+		return nil, fmt.Errorf("anchor ambiguous: %d Quai->Qi conversion branches in (*StateProcessor).Process", len(found))
+	}
+	stmts := found[0].Body.List
+	if len(stmts) == 0 {
+		return nil, fmt.Errorf("anchor changed: empty Quai->Qi conversion branch")
+	}
+	lo, hi := stmts[0].Pos(), stmts[len(stmts)-1].End()
+	body := string(src[fset.Position(lo).Offset:fset.Position(hi).Offset])
+
+	free := map[string]bool{}
+	usedPkgs := map[string]bool{}
+	selectorSel := map[*ast.Ident]bool{}
+	for _, s := range stmts {
+		ast.Inspect(s, func(m ast.Node) bool {
+			if x, ok := m.(*ast.SelectorExpr); ok {
+				selectorSel[x.Sel] = true
+			}
+			return true
+		})
+	}
+	for _, s := range stmts {
+		ast.Inspect(s, func(m ast.Node) bool {
+			id, ok := m.(*ast.Ident)
+			if !ok || selectorSel[id] || id.Name == "_" {
+				return true
+			}
+			if id.Obj == nil {
+				if _, isImp := imports[id.Name]; isImp {
+					usedPkgs[id.Name] = true
+				}
+				return true
+			}
+			dp := id.Obj.Pos()
+			if (dp < lo || dp >= hi) && dp >= fn.Pos() && dp < fn.End() {
+				free[id.Name] = true
+			}
+			return true
+		})
+	}
+	var frees []string
+	for v := range free {
+		frees = append(frees, v)
+	}
+	sort.Strings(frees)
+	isLocal := map[string]bool{}
+	for _, l := range mintLocals {
+		isLocal[l.name] = true
+	}
+	for _, v := range frees {
+		if _, ok := mintParamTypes[v]; !ok && !isLocal[v] {
+			return nil, fmt.Errorf("the Quai->Qi conversion branch of Process has a new free variable %q: the reviewed parameter table of harness/cmd/c20/slicer does not know its type", v)
+		}
+	}
+	// result list of Process, verbatim, with names so that the trailing bare return is legal
+	if fn.Type.Results == nil {
+		return nil, fmt.Errorf("anchor changed: Process has no results")
+	}
+	var results []string
+	for i, f := range fn.Type.Results.List {
+		if len(f.Names) != 0 {
+			return nil, fmt.Errorf("anchor changed: Process has named results")
+		}
+		results = append(results, fmt.Sprintf("verifR%d %s", i, pr(f.Type)))
+		ast.Inspect(f.Type, func(m ast.Node) bool {
+			if x, ok := m.(*ast.SelectorExpr); ok {
+				if id, ok := x.X.(*ast.Ident); ok {
+					if _, isImp := imports[id.Name]; isImp {
+						usedPkgs[id.Name] = true
+					}
+				}
+			}
+			return true
+		})
+		_ = i
+	}
+	for _, n := range []string{"types", "ethdb", "big", "params", "log"} {
+		usedPkgs[n] = true
+	}
+	out := &mintOut{}
+	var names []string
+	for n := range usedPkgs {
+		names = append(names, n)
+	}
+	sort.Strings(names)
+	for _, n := range names {
+		p, ok := imports[n]
+		if !ok {
+			if n == "big" {
+				p = "math/big"
+			} else {
+				return nil, fmt.Errorf("generated mint function needs package %q which core/state_processor.go does not import", n)
+			}
+		}
+		if filepath.Base(p) == n {
+			out.imports = append(out.imports, fmt.Sprintf("\t%q\n", p))
+		} else {
+			out.imports = append(out.imports, fmt.Sprintf("\t%s %q\n", n, p))
+		}
+	}
+	var g strings.Builder
+	g.WriteString("// ---- second slice: Quai->Qi conversion branch of (*StateProcessor).Process ----\n\n")
+	g.WriteString("func NewVerifC20StateProcessor(config *params.ChainConfig, logger *log.Logger) *StateProcessor {\n\treturn &StateProcessor{config: config, logger: logger}\n}\n\n")
+	g.WriteString("type VerifC20MintOut struct {\n\tReached bool\n")
+	for _, l := range mintLocals {
+		if l.field != "" {
+			fmt.Fprintf(&g, "\t%s %s\n", l.field, l.typ)
+		}
+	}
+	g.WriteString("}\n\n")
+	g.WriteString("func VerifMintQuaiToQi(")
+	for _, p := range mintParamOrder {
+		fmt.Fprintf(&g, "%s %s, ", p, mintParamTypes[p])
+	}
+	g.WriteString("verifOut *VerifC20MintOut) (" + strings.Join(results, ", ") + ") {\n")
+	for _, p := range mintParamOrder {
+		if !free[p] {
+			fmt.Fprintf(&g, "\t_ = %s\n", p)
+		}
+	}
+	for _, l := range mintLocals {
+		if free[l.name] {
+			fmt.Fprintf(&g, "\tvar %s %s\n\t_ = %s\n", l.name, l.typ, l.name)
+		}
+	}
+	g.WriteString("\tfor verifOnce := true; verifOnce; verifOnce = false {\n")
+	g.WriteString("\t\t// ---- begin verbatim text of core/state_processor.go ----\n")
+	fmt.Fprintf(&g, "//line %s:%d\n", path, fset.Position(lo).Line)
+	g.WriteString("\t\t\t\t\t")
+	g.WriteString(body)
+	g.WriteString("\n//line verif_c20_sliced_gen.go:2000\n")
+	g.WriteString("\t\t// ---- end verbatim text ----\n\t}\n")
+	g.WriteString("\tverifOut.Reached = true\n")
+	for _, l := range mintLocals {
+		if l.field != "" && free[l.name] {
+			fmt.Fprintf(&g, "\tverifOut.%s = %s\n", l.field, l.name)
+		}
+	}
+	g.WriteString("\treturn\n}\n")
+	out.code = g.String()
+	res.MintBody = body
+	res.MintFreeVars = frees
+	res.MintShape = shape(fset, stmts)
+	res.MintStartLine = fset.Position(lo).Line
+	res.MintEndLine = fset.Position(hi).Line
+	return out, nil
 }
 
 // shape: pre-order list of statement descriptors "<depth>:<kind>:<normalised text of the head>"
@@ -450,7 +726,11 @@ func shape(fset *token.FileSet, stmts []ast.Stmt) []string {
 		add := func(kind, head string) { out = append(out, fmt.Sprintf("%d:%s:%s", depth, kind, head)) }
 		switch x := s.(type) {
 		case *ast.IfStmt:
-			add("if", pr(x.Cond))
+			if x.Init != nil {
+				add("if", pr(x.Init)+"; "+pr(x.Cond))
+			} else {
+				add("if", pr(x.Cond))
+			}
 			list(depth+1, x.Body.List)
 			if x.Else != nil {
 				add("else", "")
@@ -472,7 +752,19 @@ func shape(fset *token.FileSet, stmts []ast.Stmt) []string {
 			add("range", k+","+v+" over "+pr(x.X))
 			list(depth+1, x.Body.List)
 		case *ast.ForStmt:
-			add("for", "")
+			h := ""
+			if x.Init != nil {
+				h += pr(x.Init)
+			}
+			h += "; "
+			if x.Cond != nil {
+				h += pr(x.Cond)
+			}
+			h += "; "
+			if x.Post != nil {
+				h += pr(x.Post)
+			}
+			add("for", h)
 			list(depth+1, x.Body.List)
 		case *ast.BlockStmt:
 			add("block", "")
